@@ -236,6 +236,10 @@ func (e *Engine) verifIntrinsic(name string) Intrinsic {
 			e.RecordSync(st, "unlock", a[0])
 			return nil
 		}
+	case "verifFileSeekRaw":
+		return e.Intrinsics["(*os.File).Seek"]
+	case "verifFileReadRaw":
+		return e.Intrinsics["(*os.File).Read"]
 	case "verifFile":
 		// verifFile(content string) *os.File : a file of the engine's file model
 		return func(e *Engine, st *State, c ssa.CallInstruction, a []Value) []*State {
